@@ -14,6 +14,7 @@ package main
 
 import (
 	"bytes"
+	"encoding/json"
 	"flag"
 	"fmt"
 	"go/ast"
@@ -71,7 +72,24 @@ func main() {
 	instPkgs := flag.String("instpkgs", "", "comma separated import paths that are instrumented as well")
 	redirects := flag.String("redirect", "", "comma separated old=new identifier redirects for package-level function calls")
 	tags := flag.String("tags", "verif", "build tags")
+	textPatches := flag.String("textpatches", "", "JSON file: [{\"file\": base name, \"old\": text, \"new\": text}] applied to the printed output; each old text must occur exactly once")
 	flag.Parse()
+	type textPatch struct {
+		File string `json:"file"`
+		Old  string `json:"old"`
+		New  string `json:"new"`
+	}
+	var patches []textPatch
+	if *textPatches != "" {
+		data, err := os.ReadFile(*textPatches)
+		if err != nil {
+			die("%v", err)
+		}
+		if err := json.Unmarshal(data, &patches); err != nil {
+			die("textpatches: %v", err)
+		}
+	}
+	patched := map[int]bool{}
 	if *out == "" || *pkgPat == "" {
 		die("need -out and -pkg")
 	}
@@ -146,6 +164,19 @@ func main() {
 		if err := format.Node(&buf, pkg.Fset, f); err != nil {
 			die("print %s: %v", base, err)
 		}
+		outBytes := buf.Bytes()
+		for pi, tp := range patches {
+			if tp.File != base {
+				continue
+			}
+			if n := strings.Count(string(outBytes), tp.Old); n != 1 {
+				die("text patch for %s: anchor occurs %d times, want exactly 1:\n%s", base, n, tp.Old)
+			}
+			outBytes = []byte(strings.Replace(string(outBytes), tp.Old, tp.New, 1))
+			patched[pi] = true
+		}
+		buf.Reset()
+		buf.Write(outBytes)
 		rel, err := filepath.Rel(*repo, path)
 		if err != nil {
 			die("%v", err)
@@ -171,6 +202,11 @@ func main() {
 		fmt.Fprintf(os.Stderr, "instrumented %s: %s\n", rel, strings.Join(parts, " "))
 		for _, w := range in.warns {
 			fmt.Fprintf(os.Stderr, "  warning: %s\n", w)
+		}
+	}
+	for pi, tp := range patches {
+		if found[tp.File] && !patched[pi] {
+			die("text patch for %s was not applied", tp.File)
 		}
 	}
 	for f := range want {
